@@ -141,4 +141,16 @@ func H_C09_copy_at_any_point_observes_what_the_original_observes() {
 	cp2 := cp.Copy()
 	verifAssert(c09Same(c09Observe(s), c09Observe(cp2)), "copy-of-a-copy-observes-what-the-original-observes")
 	verifReach("copied")
+	// the copy moves on - a storage write that it flushes into its tries - and neither the original nor
+	// the sibling copy moves with it (flushing moves the slot into the object's committed-storage
+	// cache, which a copy must not share with its source)
+	obsS, obsC2 := c09Observe(s), c09Observe(cp2)
+	c09Mutate(cp, 3)
+	cp.IntermediateRoot(false)
+	verifAssert(c09Same(obsS, c09Observe(s)) && c09Same(obsC2, c09Observe(cp2)), "a-copys-flushed-write-stays-in-the-copy")
+	// and the other way round
+	obsC := c09Observe(cp)
+	c09Mutate(s, 3)
+	s.IntermediateRoot(false)
+	verifAssert(c09Same(obsC, c09Observe(cp)) && c09Same(obsC2, c09Observe(cp2)), "the-originals-flushed-write-stays-in-the-original")
 }
